@@ -183,6 +183,12 @@ class Analysis:
                 return d.value
             if isinstance(d, ast.AnnAssign):
                 return d.value
+            # `a, b = x, y`: element-wise
+            if isinstance(d, ast.Assign) and len(d.targets) == 1 and isinstance(d.targets[0], (ast.Tuple, ast.List)) and isinstance(d.value, (ast.Tuple, ast.List)) \
+                    and len(d.targets[0].elts) == len(d.value.elts) and not any(isinstance(x, ast.Starred) for x in d.targets[0].elts + d.value.elts):
+                for tg, v in zip(d.targets[0].elts, d.value.elts):
+                    if isinstance(tg, ast.Name) and tg.id == name:
+                        return v
         return None
 
     def preceding_def(self, stmt: ast.stmt, name: str) -> Optional[ast.expr]:
@@ -264,12 +270,25 @@ class Analysis:
                         break
                 elif n.kind == "stmt" and isinstance(n.ast, (ast.Assign, ast.AnnAssign)) and n.ast.value is not None:
                     tg = n.ast.targets[0] if isinstance(n.ast, ast.Assign) and len(n.ast.targets) == 1 else (n.ast.target if isinstance(n.ast, ast.AnnAssign) else None)
+                    pairs = []
                     if isinstance(tg, ast.Name):
-                        # call results are not propagated (a call is an effect, and its text would hide the local's role)
-                        if not calls and any(isinstance(x, ast.Call) for x in ast.walk(n.ast.value)):
-                            last.pop(tg.id, None)
+                        pairs = [(tg.id, n.ast.value)]
+                    elif isinstance(tg, (ast.Tuple, ast.List)):
+                        v_ = n.ast.value
+                        if isinstance(v_, (ast.Tuple, ast.List)) and len(v_.elts) == len(tg.elts) and not any(isinstance(x, ast.Starred) for x in tg.elts + v_.elts):
+                            pairs = [(a.id, b) for a, b in zip(tg.elts, v_.elts) if isinstance(a, ast.Name)]
                         else:
-                            last[tg.id] = n.ast.value
+                            for x in ast.walk(tg):
+                                if isinstance(x, ast.Name):
+                                    last.pop(x.id, None)
+                    for (nm_, val_) in pairs:
+                        # call results are not propagated (a call is an effect, and its text would hide the local's role)
+                        if not calls and any(isinstance(x, ast.Call) for x in ast.walk(val_)):
+                            last.pop(nm_, None)
+                        else:
+                            last[nm_] = val_
+                elif n.kind == "stmt" and isinstance(n.ast, ast.AugAssign) and isinstance(n.ast.target, ast.Name):
+                    last.pop(n.ast.target.id, None)
             if dead:
                 continue
 
@@ -303,6 +322,21 @@ class Analysis:
             for c in _simplify(cs):
                 res.append((c, v))
         return sorted(res, key=lambda t: (t[1], sorted(t[0])))
+
+    def edges_implying(self, g: CFG, fi: FunctionInfo, atom: str, pol: bool, inline_preds=False) -> List[Tuple[Node, str]]:
+        """Branch edges (test node, 'T'|'F') whose condition implies atom == pol, whatever the spelling
+        (`if not x: …` / `if x: … else …` / `x and y`)."""
+        out = []
+        for n in g.nodes:
+            if n.kind == "test" and n.ast is not None:
+                for lab in ("T", "F"):
+                    try:
+                        d = self.dnf(n.ast, lab == "T", fi, inline_preds=inline_preds)
+                    except Exception:
+                        continue
+                    if d and all((atom, pol) in c for c in d):
+                        out.append((n, lab))
+        return out
 
     def ret_values(self, f: FunctionInfo, bind: Optional[Dict[str, str]] = None, keep=None) -> List[Tuple[Conj, str]]:
         """Conditional return values of a function: (guard, canonical value text) per return, with
